@@ -537,6 +537,10 @@ def run_case(ctx, case):
 
 
 def finish(ctx):
+  if not ctx.quick and ctx.shard == 0:
+    # extra workload: the repository's own test-suite under passive monitors
+    from vlib.passive_run import run_suite
+    run_suite(ctx, "mkd")
   # the enumerated spaces must have been run completely (21 / 24 operations)
   for key, minimum in [
       ("mkd:histories-small", 21 ** ctx.pick(4, 5)),
